@@ -173,16 +173,23 @@ theorem decimal_ser_valid (neg : Bool) (c : Nat) (x : Int) :
 /-- every xs:decimal lexical form (optional sign, leading/trailing zeros, `.5`,
 `5.`), with XSD white space around it, is read as exactly the decimal it denotes -/
 theorem decimal_accepts (e : Env) (pre post s : Str) (neg : Bool) (c : Nat) (x : Int)
-    (hpre : AllXsdSpace pre) (hpost : AllXsdSpace post) (h : XsdDecimal s neg c x) :
-    decimalDeserialize e (pre ++ s ++ post) = some (.fin neg c x) :=
-  decimalParse_lex e pre post s neg c x hpre hpost h
+    (hpre : AllXsdSpace pre) (hpost : AllXsdSpace post) (h : XsdDecimal s neg c x)
+    (hr : (Dec.fin neg c x).inRange = true) :
+    decimalDeserialize e (pre ++ s ++ post) = some (.fin neg c x) := by
+  unfold decimalDeserialize
+  rw [decimalParse_lex e pre post s neg c x hpre hpost h]
+  simp [hr]
 
-/-- what a finite Decimal is read back as … -/
-theorem decimal_rt (e : Env) (neg : Bool) (c : Nat) (x : Int) :
+/-- what a finite Decimal is read back as (the hypothesis says the written number
+has fewer than 10^18 digits, the limit of the decimal module) … -/
+theorem decimal_rt (e : Env) (neg : Bool) (c : Nat) (x : Int)
+    (hr : (Dec.fin neg (c * 10 ^ x.toNat) (min x 0)).inRange = true) :
     decimalDeserialize e (decimalSerialize (.fin neg c x)) = some (.fin neg (c * 10 ^ x.toNat) (min x 0)) := by
   have := decimal_accepts e [] [] _ neg _ _ (by intro c h; cases h) (by intro c h; cases h)
-    (decimal_ser_valid neg c x)
+    (decimal_ser_valid neg c x) hr
   simpa using this
+
+example : (Dec.fin true (150 * 10 ^ (-2 : Int).toNat) (min (-2) 0)).inRange = true := by decide
 
 /-- … which is the same number (`Decimal.__eq__`), for every sign, coefficient and exponent -/
 theorem decimal_rt_value (neg : Bool) (c : Nat) (x : Int) :
@@ -215,14 +222,16 @@ theorem decimal_inf_rt (e : Env) (neg : Bool) :
       ⟨⟨'I', _, rfl, ns _ (by decide) (by decide)⟩, ⟨['I', 'N'], 'F', rfl, ns _ (by decide) (by decide)⟩⟩)
     simp only [decimalDeserialize, decimalParse, hs, ht]
     rw [if_pos (by decide)]
-    decide
+    simp [Dec.inRange]
+    try decide
   | true =>
     have hs : decimalSerialize (.inf true) = ['-', 'I', 'N', 'F'] := by decide
     have ht : e.strip ['-', 'I', 'N', 'F'] = ['-', 'I', 'N', 'F'] := stripBy_tight _ _ (Or.inr
       ⟨⟨'-', _, rfl, ns _ (by decide) (by decide)⟩, ⟨['-', 'I', 'N'], 'F', rfl, ns _ (by decide) (by decide)⟩⟩)
     simp only [decimalDeserialize, decimalParse, hs, ht]
     rw [if_pos (by decide)]
-    decide
+    simp [Dec.inRange]
+    try decide
 
 /-! ## xs:double / xs:float
 
